@@ -155,10 +155,13 @@ Qed.
 Lemma valid_frames_ideal : forall l, valid_frames (map SFrame l) = l.
 Proof. induction l as [|f l IH]; cbn [map valid_frames slot_frame]; [reflexivity|rewrite IH; reflexivity]. Qed.
 
-Lemma flat_map_valid_ideal : forall log, flat_map valid_frames (map (map SFrame) log) = concat log.
+Lemma valid_frames_app_ideal : forall l t, valid_frames (map SFrame l ++ t) = l ++ valid_frames t.
+Proof. induction l as [|f l IH]; intro t; cbn [map app valid_frames slot_frame]; [reflexivity|rewrite IH; reflexivity]. Qed.
+
+Lemma seg_frames_ideal : forall log, seg_frames (map (map SFrame) log) = concat log.
 Proof.
-  induction log as [|g log IH]; cbn [map flat_map concat]; [reflexivity|].
-  rewrite valid_frames_ideal, IH. reflexivity.
+  induction log as [|g log IH]; cbn [map seg_frames concat]; [reflexivity|].
+  rewrite valid_frames_ideal, map_length, Nat.eqb_refl, IH. reflexivity.
 Qed.
 
 Lemma valid_frames_nth : forall fl o f, nth_error (valid_frames fl) o = Some f ->
@@ -173,54 +176,144 @@ Proof.
     + destruct o; discriminate.
 Qed.
 
+Lemma valid_frames_length_le : forall fl, (length (valid_frames fl) <= length fl)%nat.
+Proof.
+  induction fl as [|s t IH]; cbn [valid_frames length]; [lia|].
+  destruct (slot_frame s); cbn [length]; lia.
+Qed.
+
+(* cutting a file behind its valid frames does not change what the reader accepts *)
+Lemma valid_frames_cut : forall fl, valid_frames (firstn (length (valid_frames fl)) fl) = valid_frames fl.
+Proof.
+  induction fl as [|s t IH]; [reflexivity|]. cbn [valid_frames].
+  destruct (slot_frame s) as [g|] eqn:Hs; cbn [length firstn valid_frames]; [|reflexivity].
+  rewrite Hs, IH. reflexivity.
+Qed.
+
+Lemma valid_frames_cut_clean : forall fl,
+  length (valid_frames (firstn (length (valid_frames fl)) fl)) = length (firstn (length (valid_frames fl)) fl).
+Proof.
+  intro fl. rewrite valid_frames_cut, firstn_length. pose proof (valid_frames_length_le fl). lia.
+Qed.
+
+(* replay looks at the last segment only through the frames the reader accepts in it *)
+Lemma seg_frames_last : forall cl x y, valid_frames x = valid_frames y -> seg_frames (cl ++ [x]) = seg_frames (cl ++ [y]).
+Proof.
+  induction cl as [|c cl IH]; intros x y H; cbn [app seg_frames].
+  - rewrite H, !app_nil_r. destruct (length (valid_frames y) =? length x)%nat, (length (valid_frames y) =? length y)%nat; reflexivity.
+  - rewrite (IH x y H). reflexivity.
+Qed.
+
 (* ---------------------------------------------------------------- read_page after Wal::open *)
-Definition look (s : st) (v : option (Z * nat)) : rd :=
-  match v with
+Definition look (s : st) (v : Z * nat) : rd :=
+  match seg_file s (fst v) with
   | None => RNone
-  | Some (seg, o) =>
-      match seg_file s seg with
-      | None => RNone
-      | Some fl =>
-          match nth_error fl o with
-          | None => RErr
-          | Some sl => match slot_frame sl with None => RErr | Some f => RSome (f_fill f) end
-          end
+  | Some fl =>
+      match nth_error fl (snd v) with
+      | None => RErr
+      | Some sl => match slot_frame sl with None => RErr | Some f => RSome (f_fill f) end
       end
   end.
 
-Lemma read_page_look : forall s k, read_page s k = look s (idx_get k (s_idx s)).
-Proof. intros s k. unfold read_page, look. destruct (idx_get k (s_idx s)) as [[seg o]|]; reflexivity. Qed.
+Definition lookR (R : Z * nat -> rd) (v : option (Z * nat)) : rd :=
+  match v with None => RNone | Some x => R x end.
 
-Lemma scan_look : forall s k fs o ix,
-  (forall j f, nth_error fs j = Some f ->
-     exists sl, nth_error (s_file s) (o + j) = Some sl /\ slot_frame sl = Some f) ->
-  look s (idx_get k (scan_from (seq_no s) o fs ix)) = last_image fs k (look s (idx_get k ix)).
+Lemma read_page_look : forall s k, read_page s k = lookR (look s) (idx_get k (s_idx s)).
+Proof. intros s k. unfold read_page, lookR, look. destruct (idx_get k (s_idx s)) as [[seg o]|]; reflexivity. Qed.
+
+Lemma last_image_app : forall a b k acc, last_image (a ++ b) k acc = last_image b k (last_image a k acc).
+Proof. induction a as [|f a IH]; intros b k acc; cbn [app last_image]; [reflexivity|apply IH]. Qed.
+
+Lemma scan_from_look : forall R k seg fs o ix,
+  (forall j f, nth_error fs j = Some f -> R (seg, (o + j)%nat) = RSome (f_fill f)) ->
+  lookR R (idx_get k (scan_from seg o fs ix)) = last_image fs k (lookR R (idx_get k ix)).
 Proof.
-  intros s k fs. induction fs as [|f fs IH]; intros o ix H; cbn [scan_from last_image]; [reflexivity|].
+  intros R k seg fs. induction fs as [|f fs IH]; intros o ix H; cbn [scan_from last_image]; [reflexivity|].
   rewrite IH.
   - f_equal. unfold idx_set. cbn [idx_get].
     destruct (key_eqb k (fkey f)); [|reflexivity].
-    destruct (H O f eq_refl) as [sl [Hn Hs]]. rewrite Nat.add_0_r in Hn.
-    unfold look, seg_file. rewrite Z.eqb_refl. rewrite Hn, Hs. reflexivity.
+    cbn [lookR]. specialize (H O f eq_refl). rewrite Nat.add_0_r in H. exact H.
   - intros j g Hj. specialize (H (S j) g Hj). replace (S o + j)%nat with (o + S j)%nat by lia. exact H.
 Qed.
 
-(* after Wal::open, read_page returns the last image of the page among the frames the
-   sequential reader accepts in the latest segment -- whatever that file contains *)
-Lemma read_after_open : forall lo closed fl k,
-  read_page (open_st lo closed fl) k = last_image (valid_frames fl) k RNone.
+Lemma scan_all_look : forall R k files seg ended ix,
+  (forall j fl o f, nth_error files j = Some fl -> nth_error (valid_frames fl) o = Some f ->
+     R (seg + Z.of_nat j, o) = RSome (f_fill f)) ->
+  lookR R (idx_get k (scan_all seg files ended ix))
+  = last_image (if ended then [] else seg_frames files) k (lookR R (idx_get k ix)).
 Proof.
-  intros lo closed fl k. rewrite read_page_look.
-  set (s := open_st lo closed fl).
-  change (s_idx s) with (scan_from (seq_no s) 0 (valid_frames fl) []).
-  rewrite scan_look; [reflexivity|].
-  intros j f Hj. cbn [Nat.add]. apply valid_frames_nth. exact Hj.
+  intros R k. induction files as [|fl t IH]; intros seg ended ix H.
+  - cbn [scan_all seg_frames]. destruct ended; reflexivity.
+  - cbn [scan_all]. rewrite IH.
+    2:{ intros j g o f Hj Ho. replace (seg + 1 + Z.of_nat j) with (seg + Z.of_nat (S j)) by lia.
+        apply (H (S j) g o f); assumption. }
+    destruct ended; cbn [orb]; [reflexivity|].
+    rewrite scan_from_look.
+    2:{ intros j f Hj. specialize (H O fl (0 + j)%nat f eq_refl Hj).
+        replace (seg + Z.of_nat 0) with seg in H by lia. exact H. }
+    cbn [seg_frames].
+    destruct (length (valid_frames fl) =? length fl)%nat; cbn [negb].
+    + rewrite last_image_app. reflexivity.
+    + reflexivity.
 Qed.
 
-Lemma reads_after_open : forall lo closed fl keys,
-  map (read_page (open_st lo closed fl)) keys = expect_reads (valid_frames fl) keys.
+Lemma nth_error_firstn_lt : forall {A} (l : list A) n o, (o < n)%nat -> nth_error (firstn n l) o = nth_error l o.
 Proof.
-  intros lo closed fl keys. unfold expect_reads. apply map_ext. intro k. apply read_after_open.
+  intros A. induction l as [|x l IH]; intros n o H.
+  - rewrite firstn_nil. reflexivity.
+  - destruct n as [|n]; [lia|]. destruct o as [|o]; cbn [firstn nth_error]; [reflexivity|]. apply IH. lia.
+Qed.
+
+(* after Wal::open, read_page returns the last image of the page among exactly the frames that
+   recovery applies -- whatever the segment files contain *)
+Lemma read_after_open : forall lo files k, files <> [] ->
+  read_page (open_st lo files) k = last_image (seg_frames files) k RNone.
+Proof.
+  intros lo files k Hne. rewrite read_page_look.
+  set (s := open_st lo files).
+  change (s_idx s) with (scan_all lo files false []).
+  rewrite scan_all_look; [reflexivity|].
+  intros j fl o f Hj Ho.
+  pose proof (app_removelast_last [] Hne) as Hsplit.
+  set (cl := removelast files) in *. set (fl0 := last files []) in *.
+  assert (Ho' : (o < length (valid_frames fl))%nat) by (apply nth_error_Some; congruence).
+  destruct (valid_frames_nth fl o f Ho) as [sl [Hsl Hfr]].
+  unfold look. cbn [fst snd]. unfold seg_file.
+  assert (Hseq : seq_no s = lo + Z.of_nat (length cl)) by reflexivity.
+  rewrite Hseq.
+  rewrite Hsplit in Hj.
+  destruct (Nat.lt_ge_cases j (length cl)) as [Hlt|Hge].
+  - rewrite nth_error_app1 in Hj by exact Hlt.
+    destruct (Z.eqb_spec (lo + Z.of_nat j) (lo + Z.of_nat (length cl))) as [E|_]; [lia|].
+    replace ((s_lo s <=? lo + Z.of_nat j) && (lo + Z.of_nat j <? lo + Z.of_nat (length cl))) with true
+      by (change (s_lo s) with lo; lia).
+    change (s_lo s) with lo. change (s_closed s) with cl.
+    replace (Z.to_nat (lo + Z.of_nat j - lo)) with j by lia.
+    rewrite Hj, Hsl, Hfr. reflexivity.
+  - rewrite nth_error_app2 in Hj by exact Hge.
+    destruct (j - length cl)%nat as [|x] eqn:Ej; [|destruct x; discriminate].
+    cbn [nth_error] in Hj. injection Hj as <-.
+    assert (Ejj : j = length cl) by lia. subst j.
+    rewrite Z.eqb_refl.
+    change (s_file s) with (firstn (length (valid_frames fl0)) fl0).
+    rewrite nth_error_firstn_lt by exact Ho'. rewrite Hsl, Hfr. reflexivity.
+Qed.
+
+Lemma reads_after_open : forall lo files keys, files <> [] ->
+  map (read_page (open_st lo files)) keys = expect_reads (seg_frames files) keys.
+Proof.
+  intros lo files keys Hne. unfold expect_reads. apply map_ext. intro k. apply read_after_open. exact Hne.
+Qed.
+
+(* recovery through the reopened handle sees the same frames as recovery of the files before
+   Wal::open cut the torn tail of the current segment *)
+Lemma seg_frames_open : forall lo files, files <> [] ->
+  seg_frames (files_of (open_st lo files)) = seg_frames files.
+Proof.
+  intros lo files Hne. unfold files_of, open_st. cbn [s_closed s_file].
+  pose proof (app_removelast_last [] Hne) as Hsplit.
+  set (cl := removelast files) in *. set (fl0 := last files []) in *.
+  rewrite Hsplit. apply seg_frames_last. apply valid_frames_cut.
 Qed.
 
 Lemma rd_eqb_refl : forall a, rd_eqb a a = true.
